@@ -2,7 +2,7 @@
 StreamProcessor)."""
 from __future__ import annotations
 
-from props.c07_core import Drv, Entity, Event, P, R
+from props.c07_core import Drv, Entity, Event, P, PI, R
 
 from happysimulator.components.messaging import DeadLetterQueue, MessageQueue, Topic
 from happysimulator.components.streaming import (ConsumerGroup, EventLog, SessionWindow, SlidingWindow,
@@ -127,8 +127,9 @@ class EventLogDrv(Drv):
     ops = ("append", "read")
 
     def build(self, cfg):
-        self.log = EventLog("log", num_partitions=2, retention_policy=TimeRetention(max_age_s=P(1.0)),
-                            append_latency=cfg.L, read_latency=cfg.L, retention_check_interval=P(0.5))
+        max_age, sweep = PI(1.0, 0.5)
+        self.log = EventLog("log", num_partitions=2, retention_policy=TimeRetention(max_age_s=max_age),
+                            append_latency=cfg.L, read_latency=cfg.L, retention_check_interval=sweep)
         return [self.log]
 
     def request(self, i, op):
@@ -175,9 +176,10 @@ class _StreamDrv(Drv):
 
     def build(self, cfg):
         self.side = _Sub("side")
-        self.sp = StreamProcessor("sp", window_type=self.window(), aggregate_fn=len, downstream=self.h.out,
+        size, watermark = PI(0.5, 0.5)
+        self.sp = StreamProcessor("sp", window_type=self.window(size), aggregate_fn=len, downstream=self.h.out,
                                   allowed_lateness_s=0.0, late_event_policy=self.policy, side_output=self.side,
-                                  watermark_interval_s=P(0.5))
+                                  watermark_interval_s=watermark)
         return [self.sp, self.side]
 
     def request(self, i, op):
@@ -188,18 +190,18 @@ class _StreamDrv(Drv):
 
 class StreamProcessorTumblingDrv(_StreamDrv):
     covers = ("StreamProcessor", "TumblingWindow")
-    window = staticmethod(lambda: TumblingWindow(size_s=P(0.5)))
+    window = staticmethod(lambda size: TumblingWindow(size_s=size))
 
 
 class StreamProcessorSlidingDrv(_StreamDrv):
     covers = ("StreamProcessor", "SlidingWindow")
-    window = staticmethod(lambda: SlidingWindow(size_s=P(1.0), slide_s=P(0.5)))
+    window = staticmethod(lambda size: SlidingWindow(size_s=2 * size, slide_s=size))
     policy = LateEventPolicy.UPDATE
 
 
 class StreamProcessorSessionDrv(_StreamDrv):
     covers = ("StreamProcessor", "SessionWindow")
-    window = staticmethod(lambda: SessionWindow(gap_s=P(0.5)))
+    window = staticmethod(lambda size: SessionWindow(gap_s=size))
     policy = LateEventPolicy.DROP
 
 
